@@ -553,6 +553,15 @@ impl Scenario for Flow {
                                 }
                             }
                         }
+                        if ex.target == "C10" {
+                            if let Some(n) = res.n() {
+                                if n <= buf.len() {
+                                    if let Some(d) = frame_walk_after(&buf[..n]) {
+                                        let _ = ex.report(Violation::new("C10", "C10.emitted_packet_breaks_frame_walk", format!("{}:{}", call.name(), mon::size_regime(buf_len, len)), d));
+                                    }
+                                }
+                            }
+                        }
                         ex.st.inc("aborted_by_malformed_emission");
                         stop!();
                     }
@@ -758,6 +767,15 @@ impl Scenario for Flow {
                                 if !(r.class() == want && r.consumed() == Some(n)) {
                                     let prop_rt: &'static str = if flights[fi].has_ext { "C13" } else { "C02" };
                                     let _ = ex.report(Violation::new(prop_rt, if prop_rt == "C02" { "C02.not_delivered" } else { "C13.not_delivered" }, format!("malformed_emission:{}", site), format!("the packet reported by encap_frag ({} bytes) is not accepted by the receiver as {} ({}): {}", n, want, r.class(), detail)));
+                                }
+                            }
+                        }
+                        if ex.target == "C10" {
+                            if let Some(n) = res.n() {
+                                if n <= buf.len() {
+                                    if let Some(d) = frame_walk_after(&buf[..n]) {
+                                        let _ = ex.report(Violation::new("C10", "C10.emitted_packet_breaks_frame_walk", format!("encap_frag:{}", mon::size_regime(buf_len, flights[fi].pdu.len())), d));
+                                    }
                                 }
                             }
                         }
@@ -1078,6 +1096,34 @@ impl Scenario for Flow {
     }
 }
 
+/// C10 consequence of an emission the wire monitor rejected: lay the reported bytes in a frame, followed by a
+/// well-formed complete packet and padding, and walk it with a fresh receiver. The following packet must be seen.
+fn frame_walk_after(reported: &[u8]) -> Option<String> {
+    let good_payload = [0xC1u8, 0xC2, 0xC3];
+    let good = wire::serialise(&Desc { kind: Kind::Complete, lt: LT_BCAST, frag_id: 0, total_len: 0, ptype: 0x0800, label: &[], exts: &[], final_mandatory: false, payload: &good_payload, crc: 0 }, None);
+    let mut fr = reported.to_vec();
+    fr.extend_from_slice(&good);
+    fr.extend_from_slice(&[0, 0, 0, 0]);
+    let mut w = RxNode::new(2, 70_000, ExtTable::default(), false);
+    for _ in 0..3 {
+        let _ = w.provision(70_000);
+    }
+    let r1 = w.decap(&fr);
+    let c1 = match r1.consumed() {
+        Some(c) => c,
+        None => return Some("decap panicked on the emitted bytes".to_string()),
+    };
+    let d1 = format!("{} consumed {}", r1.class(), c1);
+    absorb(&mut w, r1);
+    if c1 != reported.len() {
+        return Some(format!("the receiver consumes {} bytes for a packet the sender reported as {} bytes ({}): the packet laid behind it is not found", c1, reported.len(), d1));
+    }
+    match w.decap(&fr[c1..]) {
+        RxRes::Ok(DecapStatus::CompletedPkt(b, md), n) if n == good.len() && md.pdu_len() == 3 && b[..3] == good_payload => None,
+        other => Some(format!("after the emitted packet ({}) the next packet of the frame is not delivered: {}", d1, other.class())),
+    }
+}
+
 pub mod gen {
     use super::*;
 
@@ -1257,10 +1303,10 @@ pub mod gen {
             "C01" => gen_c01(rng),
             "C12" => {
                 // extension-bearing fragmented PDUs (label possibly substituted) take another CRC call site
-                if rng.chance(1, 3) {
-                    gen_c13(rng)
-                } else {
-                    gen_c02(rng, target)
+                match rng.below(6) {
+                    0 | 1 => gen_c13(rng),
+                    2 => gen_c07(rng, u64::MAX), // several streams, restarts on the same id with other metadata
+                    _ => gen_c02(rng, target),
                 }
             }
             "C11" => {
@@ -1626,7 +1672,7 @@ pub mod gen {
             for _ in 0..npk {
                 let flip = if corrupt && rng.chance(1, 6) { 1 + rng.below(4000) } else { 0 };
                 if open > 0 && rng.chance(1, 2) {
-                    let b = *rng.pick(&[5usize, 9, 20, 60, 300, 4097]);
+                    let b = *rng.pick(&[5usize, 9, 20, 60, 300, 4097, 4097, 6000, 70_000]);
                     let mut o = cont(rng.below(4) as usize, b);
                     if flip > 0 {
                         o = o.u("flip", flip);
@@ -1638,14 +1684,19 @@ pub mod gen {
                 } else {
                     let wr = rng.chance(1, 6);
                     let lab = label(rng, wr);
-                    let len = match rng.below(5) {
-                        0 => rng.usize_in(0, 4),
-                        1 => rng.usize_in(1000, 3000),
-                        _ => rng.usize_in(1, 200),
+                    let huge = rng.chance(1, 25);
+                    let len = if huge {
+                        rng.usize_in(4090, 20_000)
+                    } else {
+                        match rng.below(5) {
+                            0 => rng.usize_in(0, 4),
+                            1 => rng.usize_in(1000, 3000),
+                            _ => rng.usize_in(1, 200),
+                        }
                     };
                     maxlen = maxlen.max(len);
-                    let frag = rng.chance(1, 3);
-                    let buf = if frag { 13 + rng.usize_in(0, len.min(30)) } else { 4097 };
+                    let frag = huge || rng.chance(1, 3);
+                    let buf = if huge { *rng.pick(&[20usize, 4097, 6000, 70_000]) } else if frag { 13 + rng.usize_in(0, len.min(30)) } else { 4097 };
                     fid = fid.wrapping_add(rng.range(1, 3) as u8);
                     let (exts, pt) = if with_ext && rng.chance(1, 2) { ext_chain(rng, &mut table) } else { (vec![], ptype(rng)) };
                     let mut o = submit(len, rng.next(), pt, &lab, fid, buf + exts.iter().map(|e| e.1.len() + 2).sum::<usize>(), &exts);
